@@ -187,7 +187,7 @@ def chk_insert(case, acc, seed):
         if min(cs) < min(tc): acc.cls('insert:clip-left')
         if max(cs) > max(tc): acc.cls('insert:clip-right')
     for intensity in (False, True):
-        for weight in (1, 0.5, 3):
+        for weight in (1, 0.5, 3, -2):
             for prefill in (False, True):
                 dtype = float if intensity else complex
                 out = np.zeros(T, dtype=dtype)
@@ -212,6 +212,39 @@ def chk_insert(case, acc, seed):
                 if fdigest(f) != d0:
                     acc.violation('insert:field-mutated', sub, 'field changed during insert')
                 acc.case(sub, outcome=f'insert-{cls}')
+
+
+def chk_reuse(case, acc, seed):
+    """a Field whose offset is an integer ndarray, used more than once: insert twice, then multiply and merge -- the second use
+    must see the same Field as the first"""
+    import lentil.field as lf
+    from lentil.field import Field
+    spec, T = case['f'], tuple(case['target'])
+    shape = tuple(spec['shape'])
+    off = np.array(spec['offset'], dtype=int)
+    off0 = off.copy()
+    f = Field(data=payload(shape, spec.get('tag', 0), seed), offset=off)
+    emb, _ = embed_operand(spec, seed)
+    tcoords = {(i - T[0] // 2, j - T[1] // 2): (i, j) for i in range(T[0]) for j in range(T[1])}
+    exp = np.zeros(T, dtype=complex)
+    for rc, v in emb.items():
+        if rc in tcoords:
+            exp[tcoords[rc]] += v
+    for k in (1, 2, 3):
+        got = lf.insert(f, np.zeros(T, dtype=complex))
+        if not np.allclose(got, exp, atol=1e-9, rtol=0):
+            acc.violation(f'insert:reuse:use-{k}', dict(case, use=k), f'insert number {k} of the same Field differs from the first')
+            break
+    if not np.array_equal(off, off0) or not np.array_equal(np.asarray(f.offset), off0):
+        acc.violation('insert:offset-array-mutated', case, f"the caller's offset array changed from {off0.tolist()} to {np.asarray(off).tolist()}")
+    # the same Field in a product afterwards
+    g = Field(data=np.ones(shape, dtype=complex), offset=off0.tolist())
+    pr = f * g
+    e2 = embed_result(pr, False)
+    if e2 is None or not dict_eq(e2[0], emb)[0]:
+        acc.violation('insert:reuse:then-mul', case, 'product after repeated inserts differs from the embedding')
+    acc.cls('reuse')
+    acc.case(case, outcome='reuse')
 
 
 def chk_insert0(case, acc, seed):
@@ -365,7 +398,7 @@ def chk_reduce(case, acc, seed):
     acc.case(case, outcome=f'reduce-{len(idx)}->{len(res)}')
 
 
-DISPATCH = {'mul': chk_mul, 'merge': chk_merge, 'insert': chk_insert, 'insert0': chk_insert0,
+DISPATCH = {'reuse': chk_reuse, 'mul': chk_mul, 'merge': chk_merge, 'insert': chk_insert, 'insert0': chk_insert0,
             'extent': chk_extent, 'reduce': chk_reduce}
 
 
@@ -405,6 +438,7 @@ def t_insert(arg, acc):
         for T in TARGETS:
             acc.transitions += 1
             chk_insert({'kind': 'insert', 'f': specs[i], 'target': T}, acc, arg['seed'])
+            chk_reuse({'kind': 'reuse', 'f': specs[i], 'target': T}, acc, arg['seed'])
     if 0 in arg['rows']:
         chk_insert0({'kind': 'insert0'}, acc, arg['seed'])
 
